@@ -136,15 +136,19 @@ DEVIATIONS = (("MC_Bech32_dev_zeroprog.cfg", "RoundTrip", "decoder refuses all-z
 
 
 def _stage_a(ctx):
+    from concurrent.futures import ThreadPoolExecutor
+
     cfg = "MC_Bech32_q.cfg" if ctx.tier == "quick" else "MC_Bech32_t.cfg"
-    r = vlib.tlc_ok("MC_Bech32", cfg, workers=16, timeout=2400)
+    with ThreadPoolExecutor(max_workers=4) as ex:      # independent JVMs: the model and the three deviations
+        f_main = ex.submit(vlib.tlc_ok, "MC_Bech32", cfg, workers=16, timeout=2400)
+        f_dev = [ex.submit(vlib.tlc, "MC_Bech32", dcfg, workers=2, timeout=600) for dcfg, _, _ in DEVIATIONS]
+        r, devs = f_main.result(), [f.result() for f in f_dev]
     rows = [p for p in r.prints if isinstance(p, list) and p and p[0] == "R"]
     consts = " ".join(ln.strip() for ln in open(os.path.join(vlib.SPEC, cfg)) if "=" in ln)
     ctx.stage_a(cfg, r, constants=consts)
     if len(rows) < 300 or r.distinct < len(rows) + 96:
         raise vlib.MachineryFailure(f"stage A {cfg}: only {len(rows)} round-trip rows / {r.distinct} states")
-    for dcfg, inv, what in DEVIATIONS:
-        d = vlib.tlc("MC_Bech32", dcfg, workers=4, timeout=600)
+    for (dcfg, inv, what), d in zip(DEVIATIONS, devs):
         if d.invariant != inv:
             raise vlib.MachineryFailure(f"vacuity guard: deviation '{what}' ({dcfg}) did not violate {inv}:\n"
                                         + d.error_text())
